@@ -3,6 +3,26 @@ interpreter) the builder turning a spec into rig objects plus canonicalisers of 
 Used by C17 and C01."""
 
 
+def ternary_keys(rng, n, shift=0):
+    """n pairwise non-intersecting (key, mask) pairs with don't-care bits at ARBITRARY positions: a random partition
+    of a small cube, obtained by repeatedly splitting a cube on one of its free bits.  Bits outside the field are
+    either all fixed to 0 or all don't-care."""
+    width = max(1, (max(n, 2) - 1).bit_length()) + rng.choice([0, 1, 2])
+    cubes = [(0, 0)]
+    while len(cubes) < n:
+        splittable = [c for c in cubes if c[1] != (1 << width) - 1]
+        if not splittable:
+            break
+        k, m = rng.choice(splittable)
+        cubes.remove((k, m))
+        b = rng.choice([1 << i for i in range(width) if not (m >> i) & 1])
+        cubes += [(k, m | b), (k | b, m | b)]
+    rng.shuffle(cubes)
+    shift = min(shift, 32 - width)
+    outer = 0 if rng.random() < 0.5 else (0xffffffff & ~(((1 << width) - 1) << shift))
+    return [[k << shift, (m << shift) | outer] for k, m in cubes[:n]]
+
+
 def gen_problem(rng, max_w=4, max_h=4, max_vertices=10, faults=True):
     w, h = rng.randint(1, max_w), rng.randint(1, max_h)
     chips = [(x, y) for x in range(w) for y in range(h)]
@@ -67,9 +87,12 @@ def gen_problem(rng, max_w=4, max_h=4, max_vertices=10, faults=True):
                 cons.append(["samechip", [devs[0], other]])
     # orthogonal keys: distinct values under a common mask
     nbits = 6
-    vals = rng.sample(range(1 << nbits), len(nets))
     shift = rng.choice([0, 8, 26])
-    keys = [[v << shift, ((1 << nbits) - 1) << shift] for v in vals]
+    if nets and rng.random() < 0.4:
+        keys = ternary_keys(rng, len(nets), shift)
+    else:
+        vals = rng.sample(range(1 << nbits), len(nets))
+        keys = [[v << shift, ((1 << nbits) - 1) << shift] for v in vals]
     return dict(machine=dict(w=w, h=h, dead_chips=dead_chips, dead_links=dead_links,
                              cores=rng.choice([2, 3, 5, 18]),
                              sdram=10000, exc=exc),
@@ -125,7 +148,7 @@ def canon(o, nets=None):
     if isinstance(o, RoutingTableEntry):
         return ["RTE", canon(o.route), o.key, o.mask, canon(o.sources)]
     if isinstance(o, RoutingTree):
-        return ["Tree", list(o.chip), sorted((canon(r), canon(c)) for r, c in o.children)]
+        return ["Tree", list(o.chip), sorted(([canon(r), canon(c)] for r, c in o.children), key=repr)]
     if isinstance(o, Net):
         return ["Net", canon(o.source), canon(o.sinks), o.weight]
     if isinstance(o, slice):
